@@ -216,10 +216,13 @@ pub fn run(ctx: &mut Ctx) {
     }
     let tier = ctx.tier;
     let seed = ctx.seed;
-    let n = if ctx.slow_tool { 40 } else { tier.pick(40_000u64, 1_500_000u64) };
+    let n = if ctx.slow_tool { 40 } else { tier.pick(400_000u64, 20_000_000u64) };
     for idx in 0..n {
         if !ctx.take("stretch", idx) {
             continue;
+        }
+        if ctx.stop("stretch") {
+            break;
         }
         let b = stretched(seed, idx);
         ctx.sample("stretch", || json!({"bytes": hex(&b)}));
@@ -259,7 +262,7 @@ pub fn run(ctx: &mut Ctx) {
         }
     }
     // C01 corpus: valid messages, every cut, every field perturbation
-    let per_type = if ctx.slow_tool { 1 } else { tier.pick(6u64, 40u64) };
+    let per_type = if ctx.slow_tool { 1 } else { tier.pick(24u64, 200u64) };
     for ci in 0..42 * per_type {
         if !ctx.take("corpus", ci) {
             continue;
@@ -282,7 +285,7 @@ pub fn run(ctx: &mut Ctx) {
         }
     }
     let samples = sample_file_messages();
-    let nh = if ctx.slow_tool { 20 } else { tier.pick(150_000u64, 6_000_000u64) };
+    let nh = if ctx.slow_tool { 20 } else { tier.pick(1_500_000u64, 80_000_000u64) };
     for idx in 0..nh {
         if !ctx.take("havoc", idx) {
             continue;
